@@ -220,3 +220,24 @@ impl Filter {
         }
     }
 }
+
+#[cfg(feature = "verif-hooks")]
+impl Filter {
+    /// Verification hook: the rate limiter held by the filter. Read-only.
+    pub fn verif_rate_limiter(&self) -> Option<&RateLimiter> {
+        self.rate_limiter.as_ref()
+    }
+
+    /// Verification hook: the node ids recorded per IP, least recently used IP first. Read-only.
+    pub fn verif_known_addrs(&self) -> Vec<(IpAddr, Vec<NodeId>)> {
+        self.known_addrs
+            .iter()
+            .map(|(ip, ids)| (*ip, ids.iter().copied().collect()))
+            .collect()
+    }
+
+    /// Verification hook: the ban counters per IP, least recently used IP first. Read-only.
+    pub fn verif_banned_nodes(&self) -> Vec<(IpAddr, usize)> {
+        self.banned_nodes.iter().map(|(ip, n)| (*ip, *n)).collect()
+    }
+}
